@@ -167,6 +167,16 @@ func Gen(t *rapid.T) Case {
 					sb.Group = ""
 				}
 			}
+			if s == 0 && sb.Group == "" && !hs.V0 && rapid.IntRange(0, 4).Draw(t, "sameName") == 0 {
+				// binding names are unique per binding kind only: a schedule binding may be called like an
+				// (ungrouped) kubernetes binding of the same hook
+				for _, k := range hs.Kube {
+					if k.Group == "" {
+						sb.Name = k.Name
+						break
+					}
+				}
+			}
 			hs.Sched = append(hs.Sched, sb)
 		}
 		if hs.V0 {
